@@ -115,7 +115,7 @@ def run(tier):
     # an illegal jump is rejected (E400/E420) also when something ELSE in the module is wrong: a constant or a structure
     # that fails, before or after the function (the module is rejected either way; the diagnostics of the jump must
     # not get lost behind those of the container)
-    faulty = ["const LIMIT: i32 = true;\n", "struct Dup\n{\n\tm: i32,\n\tm: i32,\n}\n", "const A: i32 = B;\nconst B: i32 = A;\n", "struct Self\n{\n\tinner: Self,\n}\n", "const N: usize = nowhere;\n",
+    faulty = ["fn broken_sibling()\n{\n\tvar x: i32 = ;\n\tgoto done;\n\tdone:\n}\n", "fn broken2()\n{\n\tif\n}\n", "const LIMIT: i32 = true;\n", "struct Dup\n{\n\tm: i32,\n\tm: i32,\n}\n", "const A: i32 = B;\nconst B: i32 = A;\n", "struct Self\n{\n\tinner: Self,\n}\n", "const N: usize = nowhere;\n",
               "word8 Big\n{\n\tx: u64,\n}\n"]
     frng = random.Random(ck.seed + 404)
     rejected = [(cid, src) for cid, src in srcs if not cid.startswith("m") and impl.get(cid, ["?"])[0].startswith("err codes=")]
